@@ -351,9 +351,50 @@ fn gen_downgrade(rng: &mut Rng) -> Vec<Op> {
     ops
 }
 
+/// one improvement reaches a class `P` by two routes of different length — `P = {k(r, b), g(h(h(r)))}` — and `P` has a
+/// parent: when `x` (below `r`) becomes small, the short route improves `P` first, the long one improves it again, and the
+/// parent has to follow both times
+fn gen_tworoutes(rng: &mut Rng) -> Vec<Op> {
+    let sym = |s: &str| ATerm { v: 16, fields: vec![CField::Lit(s.into())], children: vec![] };
+    let num = |s: &str| ATerm { v: 15, fields: vec![CField::Lit(s.into())], children: vec![] };
+    let h = |a: ATerm| ATerm { v: 13, fields: vec![CField::App], children: vec![a] };
+    let bin = |v: usize, a: ATerm, b: ATerm| ATerm { v, fields: vec![CField::App, CField::App], children: vec![a, b] };
+    let g = |t: ATerm| ATerm { v: 0, fields: vec![CField::Bind(10, Box::new(CField::App))], children: vec![t] };
+    let q = |t: ATerm| ATerm { v: 6, fields: vec![CField::Bind(10, Box::new(CField::App))], children: vec![t] };
+    let chain = |n: usize, leaf: ATerm| (0..n).fold(leaf, |t, _| h(t));
+    let mut terms: Vec<ATerm> = Vec::new();
+    for i in 0..rng.below(6) {
+        terms.push(num(&format!("{}", 7 + i)));
+    }
+    let base = terms.len();
+    let x = chain(rng.range(7, 10), sym("zx"));
+    let r = q(x.clone());
+    let b = chain(rng.range(2, 4), sym("zb"));
+    let short = if rng.chance(1, 2) { bin(14, r.clone(), b.clone()) } else { bin(14, b.clone(), r.clone()) };
+    let long = g((0..rng.range(2, 3)).fold(r.clone(), |t, _| q(t)));
+    terms.push(x); // base
+    terms.push(sym("l")); // base + 1
+    terms.push(short.clone()); // base + 2
+    terms.push(long); // base + 3
+    terms.push(bin(5, short.clone(), num("2"))); // the parent of P
+    if rng.chance(1, 2) {
+        terms.push(g(bin(5, short, num("2"))));
+    }
+    let mut ops: Vec<Op> = terms.into_iter().map(Op::Add).collect();
+    ops.push(Op::Union(base + 2, base + 3)); // P
+    ops.push(Op::Union(base, base + 1)); // x = l
+    ops
+}
+
 pub fn run(ctx: &mut Ctx) {
     for _ in 0..ctx.count {
         let mut rng = ctx.rng.fork();
+        if rng.chance(1, 4) {
+            let ops = gen_tworoutes(&mut rng);
+            let desc = enc_ops(&ops);
+            emit_kind::<MinSize>(ctx, &ops, &[], 0, |d| d.to_string(), "minsize", &desc);
+            emit_kind::<MinDepth>(ctx, &ops, &[], 0, |d| d.to_string(), "mindepth", &desc);
+        }
         if rng.chance(1, 3) {
             let ops = gen_downgrade(&mut rng);
             let desc = enc_ops(&ops);
